@@ -111,6 +111,13 @@ OverlapPairs(c) == { p \in Movable(c) \X Movable(c) : p[1] < p[2] /\ Overlap(c.c
 \* "success is trivial" (C01): row-high movable cells without row restriction whose total width is at most
 \* the total free segment width less one maximum cell width per segment.
 SegmentsOfRow(c, r) == FreeSegments(c.rows[r], ObstacleRects(c))
+\* the free space of a whole circuit as every consumer must see it: segments <<x0, x1, y0, y1, orientation>> of every row, against
+\* the fixed obstruction cells plus the movable cells in `also` (cells a consumer treats as obstacles)
+FreeOfCircuit(c, also) ==
+    LET ids == Obstacles(c) \cup { i \in also : PW(c.cells[i]) > 0 /\ PH(c.cells[i]) > 0 }
+        rects == [i \in ids |-> CellRect(c.cells[i])] IN
+    UNION { { <<s[1], s[2], c.rows[r].y0, c.rows[r].y1, c.rows[r].o>> : s \in FreeSegments(c.rows[r], rects) } : r \in 1..Len(c.rows) }
+RowSet(rows) == { <<rows[k].x0, rows[k].x1, rows[k].y0, rows[k].y1, rows[k].o>> : k \in 1..Len(rows) }
 TrivialFit(c) ==
     LET M == Movable(c) H == RowH(c) IN
     /\ \A i \in M : c.cells[i].p = "ANY" /\ PH(c.cells[i]) = H /\ PW(c.cells[i]) > 0
